@@ -208,6 +208,51 @@ class Body:
             if t["t"] == "call":
                 yield bi, t
 
+    # ---- provenance (flow-insensitive may-derive-from)
+    def provenance(self, operand, limit=200):
+        """set of callee names (declared paths) the value of an operand may derive from, walking
+        back through every definition of the locals involved (copies, refs, fields, call args)"""
+        seen_l = set()
+        names = set()
+        consts = set()
+        work = []
+        p = op_place(operand)
+        if p is not None:
+            work.append(p["l"])
+        n = 0
+        while work and n < limit:
+            l = work.pop()
+            if l in seen_l:
+                continue
+            seen_l.add(l)
+            n += 1
+            if 0 < l <= self.argc:
+                names.add("arg%d" % l)
+            for (bi, si, kind, payload) in self.defs().get(l, []):
+                if kind == "call":
+                    decl, res, info = callee_of(payload)
+                    names.add(decl or "?")
+                    for a in payload.get("args", []):
+                        q = op_place(a)
+                        if q is not None:
+                            work.append(q["l"])
+                elif kind == "assign":
+                    rv = payload
+                    for o in _operands_of_rvalue(rv):
+                        q = op_place(o)
+                        if q is not None:
+                            work.append(q["l"])
+                    if rv.get("p"):
+                        work.append(rv["p"]["l"])
+                elif kind == "partial":
+                    rv = payload.get("rv")
+                    if rv:
+                        for o in _operands_of_rvalue(rv):
+                            q = op_place(o)
+                            if q is not None:
+                                work.append(q["l"])
+        return names
+
     # ---- canonical keys
     def key_of_operand(self, o, depth=0):
         """canonical expression key of an operand: follows copies/moves/refs of temporaries
